@@ -238,9 +238,19 @@ func (msg RtmpMsg) IsAacSeqHeader() bool {
 }
 
 func (msg RtmpMsg) VideoCodecId() uint8 {
+	// 0 (no codec) for a payload too short to carry its codec id: empty, or an
+	// enhanced-rtmp header without its 4-byte fourcc
+	if len(msg.Payload) < 1 {
+		return 0
+	}
+
 	isExtHeader := msg.Payload[0] & 0x80
 	if isExtHeader == 0 {
 		return msg.Payload[0] & 0xF
+	}
+
+	if len(msg.Payload) < 5 {
+		return 0
 	}
 
 	if msg.Payload[1] == 'h' && msg.Payload[2] == 'v' && msg.Payload[3] == 'c' && msg.Payload[4] == '1' {
